@@ -361,3 +361,56 @@ def classify_and_validate(rep, scenarios, results, outdir, prop):
             sig = "mux:reject:%s" % (bad["ev"] if bad else "?")
         rep.violation(sig, what, {"scenario": s, "rejected_event": bad, "trace": evs[:400]})
     return {"traces": len(paths), "accepted": accepted}
+
+
+def binding_selftest(traces, scenarios):
+    """E4: corrupt a known-good mux trace in three ways; each must be rejected by TraceMux."""
+    good = None
+    for s in scenarios:
+        if s["mode"] == "ctl" and s["name"] in traces and not s.get("bulk_len") and not s.get("holds"):
+            rows = vlib.read_ndjson(traces[s["name"]])
+            if any(r.get("ev") == "xfer" for r in rows) and len(rows) < 200:
+                r0 = vlib.validate_trace("TraceMux", "trace_mux.cfg", traces[s["name"]])
+                if r0["accepted"]:
+                    good = traces[s["name"]]
+                    break
+    if good is None:
+        return 0
+
+    def change_id(rows):
+        for r in rows:
+            if r.get("ev") == "mux.run.id" and r.get("b") == 1:
+                r["a"] = r["a"] + 100
+                return rows
+        return None
+
+    def drop_took(rows):
+        for i, r in enumerate(rows):
+            if r.get("ev") == "mux.accept.took":
+                return rows[:i] + rows[i + 1:]
+        return None
+
+    def flip_ret(rows):
+        for r in rows:
+            if r.get("ev") == "ret.accept" and r.get("res") == "ok":
+                r["res"] = "timeout"
+                return rows
+        return None
+
+    def wrong_peer(rows):
+        dials = [d["name"] for d in rows[0]["dials"]]
+        for r in rows:
+            if r.get("ev") == "xfer" and len(dials) > 1:
+                r["dial"] = [d for d in dials if d != r["dial"]][0]
+                return rows
+        return None
+
+    def early_timeout(rows):
+        for r in rows:
+            if r.get("ev") == "mux.getstream" and r.get("b") == 0:
+                r["b"] = 1
+                return rows
+        return None
+    return vlib.selftest_trace("TraceMux", "trace_mux.cfg", good,
+                               [("id of a received stream changed", change_id), ("accept.took dropped", drop_took), ("accept result flipped", flip_ret),
+                                ("data arrived at another acceptor", wrong_peer), ("getStream 'existed' flag flipped", early_timeout)], "mux")
